@@ -1893,13 +1893,182 @@ def rule_dtype(repo):
                        "explicitness of the elements is lost")
             else:
                 r2.ok(gm, 'RTLIRGetter._handle_Array', cons, note=f"{ew}-bit elements")
-    w.sync()
+    # lists of components: typed by element 0, so every element must expose the same ports WITH the same port types
+    ccls = w.I.get_class(RT, 'Component')
+
+    def comp(width, names=('in_', 'out'), extra=None):
+        c = AInst(ccls)
+        props = {names[0]: w.new(w.rt, 'Port', 'input', w.vec(width)), names[1]: w.new(w.rt, 'Port', 'output', w.vec(width))}
+        if extra:
+            props[extra] = w.new(w.rt, 'Wire', w.vec(3))
+        c.attrs.update(name='Lane', params=[], properties=props, unpacked=False, obj=None)
+        return c
+    ccases = (('[Lane(8), Lane(8)]', lambda: [comp(8), comp(8)], True),
+              ('[Lane(8), Lane(8) with another internal wire]', lambda: [comp(8), comp(8, extra='tmp')], True),
+              ('[Lane(8), Lane(4), Lane(8)]', lambda: [comp(8), comp(4), comp(8)], False),
+              ('[Lane(4), Lane(8)]', lambda: [comp(4), comp(8)], False),
+              ('[Lane(8), Lane(8) with renamed ports]', lambda: [comp(8), comp(8, names=('a', 'b'))], False))
+    for txt, mk, same in ccases:
+        types = mk()
+        objs = [Opaque(f'component{i}') for i in range(len(types))]
+        table = {id(o): t for o, t in zip(objs, types)}
+        g = w.I.call(gcls, [], {'cache': False})
+        g.attrs['get_rtlir'] = lambda o, table=table: table[id(o)]
+        cons = f"get_rtlir({txt})"
+        w.evals += 1
+        try:
+            T = w.I.call(w.I.getattr(g, '_handle_Array'), ['lanes', objs])
+            exc = None
+        except Raised as e:
+            T, exc = None, e.what
+        if same and exc is not None:
+            r2.bad(gm, 'RTLIRGetter._handle_Array', cons, f"a list of components with identical ports is rejected ({exc})")
+        elif not same and exc is None:
+            r2.bad(gm, 'Component._has_same_interface', cons, "a list of components whose ports differ (in width / name) is typed by its "
+                   "first element: `s.lanes[1].out` gets the port width of lanes[0], the simulator's value has another width")
+        elif not same and exc not in ('AssertionError', 'RTLIRConversionError'):
+            r2.bad(gm, 'RTLIRGetter._handle_Array', cons, f"ends with {exc}")
+        else:
+            r2.ok(gm, 'RTLIRGetter._handle_Array' if same else 'Component._has_same_interface', cons)
     r2.evaluations = w.evals
-    r2.require_floor(20)
-    return [r, r2]
+    r2.require_floor(25)
+
+    r3 = RuleResult('R-C10-nextdim', "indexing a packed-array signal peels exactly one dimension, for Port / Wire / NetWire / Const alike: "
+                                     "after k indices the remaining dims, after all indices the element")
+    for kind in ('Port', 'Wire', 'NetWire', 'Const'):
+        for dims in ((3,), (2, 3), (2, 3, 2)):
+            dt = w.new(w.rdt, 'PackedArray', list(dims), w.vec(S(4, 'w')))
+            T = w.new(w.rt, 'Port', 'input', dt) if kind == 'Port' else w.new(w.rt, kind, dt)
+            cons = f"{kind}.get_next_dim_type on PackedArray{list(dims)}"
+            prob = None
+            rest = list(dims)
+            try:
+                while rest:
+                    w.evals += 1
+                    T = w.I.call(w.I.getattr(T, 'get_next_dim_type'))
+                    rest = rest[1:]
+                    n = 1
+                    for d in rest:
+                        n *= d
+                    if not isinstance(T, AInst) or T.cls.name != kind:
+                        prob = f"after {len(dims) - len(rest)} index(es) the type is {T!r}, not a {kind}"
+                        break
+                    got = w.width(T)
+                    dtn = w.I.call(w.I.getattr(T, 'get_dtype')).cls.name
+                    if got.form != {'w': n} or dtn != ('PackedArray' if rest else 'Vector'):
+                        prob = (f"after {len(dims) - len(rest)} index(es) into a {list(dims)} array of 4-bit elements the type is a {dtn} of "
+                                f"{got.v} bits, expected {'the ' + str(rest) + ' sub-array' if rest else 'the element'} ({4 * n} bits): "
+                                f"`s.w.arr[1]{'[2]' if len(dims) > 1 else ''}` is typed with the wrong width")
+                        break
+            except Raised as e:
+                prob = f"ends with {e.what}"
+            if prob:
+                r3.bad(gm, f"{kind}.get_next_dim_type", cons, prob)
+            else:
+                r3.ok(gm, f"{kind}.get_next_dim_type", cons)
+    # through the checker: s.sig[1] on a packed-array wire
+    for kind in ('Port', 'Wire'):
+        ck = w.checker()
+        gt = ck.attrs['rtlir_getter']
+        dt = w.new(w.rdt, 'PackedArray', [2, 3], w.vec(S(4, 'w')))
+        base = w.new(w.bir, 'Attribute', Opaque('base'), 'arr')
+        base.attrs.update(Type=(w.new(w.rt, 'Port', 'input', dt) if kind == 'Port' else w.new(w.rt, kind, dt)), _is_explicit=True)
+        idx = w.new(w.bir, 'Number', S(1, 'k'))
+        idx.attrs.update(Type=gt.get_rtlir(S(1, 'k')), _value=S(1, 'k'), _is_explicit=False)
+        node = w.new(w.bir, 'Index', base, idx)
+        exc = w.run(ck, 'visit_Index', node)
+        cons = f"visit_Index s.arr[1] on a {kind} of PackedArray[2, 3]"
+        wm, wq, wl_ = _where(w, 'visit_Index')
+        if exc is not None or not isinstance(node.attrs.get('Type'), AInst):
+            r3.bad(wm, wq, cons, f"ends with {exc}", wl_)
+        elif w.nwidth(node).form != {'w': 3}:
+            r3.bad(wm, wq, cons, f"typed {w.nwidth(node).v} bits, the row has 3 elements of 4 bits", wl_)
+        else:
+            r3.ok(wm, wq, cons)
+    w.sync()
+    r3.evaluations = w.evals
+    r3.require_floor(13)
+    return [r, r2, r3]
 
 
-RULES = [rule_intlog, rule_litwidth, rule_idxwidth, rule_optable, rule_handlers, rule_mismatch, rule_widthtable, rule_cache, rule_ir_eq, rule_slice_step, rule_dtype,
+# ---------------------------------------------------------------------------
+BLOCK_ATTRS = ('__closure__', '__code__', '__globals__')
+BLOCKSTATE_PROBE = """
+class V:
+  def __init__( s ):
+    s.closure = {}
+  def enter( s, blk ):
+    s.globals = blk.__globals__
+    for i, var in enumerate( blk.__code__.co_freevars ):
+      s.closure[ var ] = blk.__closure__[ i ].cell_contents
+class W:
+  def enter( s, blk ):
+    s.closure = {}
+    for i, var in enumerate( blk.__code__.co_freevars ):
+      s.closure[ var ] = blk.__closure__[ i ].cell_contents
+"""
+
+
+def _blockstate_fills(mod):
+    """(class, function, attribute, fill stmt, fresh?) for every table of the visitor that is filled in place inside a function
+    that reads the update block's namespaces (blk.__closure__ / __code__ / __globals__)"""
+    from sa.astutil import preceding_stmts
+    out = []
+    for c in mod.classes.values():
+        for f in mod._defs_in(c.body):
+            if not isinstance(f, ast.FunctionDef) or not f.args.args:
+                continue
+            me = f.args.args[0].arg
+            if not any(isinstance(n, ast.Attribute) and n.attr in BLOCK_ATTRS for n in walk_no_nested(f)):
+                continue
+            seen = set()
+            for n in walk_no_nested(f):
+                attr = None
+                if isinstance(n, (ast.Assign, ast.AugAssign)):
+                    for t in (n.targets if isinstance(n, ast.Assign) else [n.target]):
+                        if isinstance(t, ast.Subscript) and isinstance(t.value, ast.Attribute) and norm(t.value.value) == me:
+                            attr = t.value.attr
+                elif isinstance(n, ast.Expr) and isinstance(n.value, ast.Call) and isinstance(n.value.func, ast.Attribute) \
+                        and n.value.func.attr in ('update', 'add', 'append', 'setdefault', 'extend') \
+                        and isinstance(n.value.func.value, ast.Attribute) and norm(n.value.func.value.value) == me:
+                    attr = n.value.func.value.attr
+                if attr is None or attr in seen:
+                    continue
+                seen.add(attr)
+                fresh = False
+                for st in preceding_stmts(n):
+                    if isinstance(st, ast.Assign) and any(isinstance(t, ast.Attribute) and norm(t.value) == me and t.attr == attr
+                                                          for t in st.targets):
+                        # fresh = built without looking at the visitor itself (no s.closure, no getattr(s, ...), no vars(s))
+                        fresh = not any(isinstance(x, ast.Name) and x.id == me for x in ast.walk(st.value))
+                out.append((c, f, attr, n, fresh))
+    return out
+
+
+def rule_blockstate(repo):
+    r = RuleResult('R-C10-blockstate', "the name tables a visitor fills from an update block (closure variables ...) are created anew in "
+                                       "the same per-block entry that fills them, never once per visitor")
+    from sa.loader import Module
+    for rel in GEN + [TC1, TC2, TC3, BEH + 'BehavioralRTLIRTypeCheckL4Pass.py', BEH + 'BehavioralRTLIRTypeCheckL5Pass.py']:
+        m = repo.mod(rel)
+        for c, f, attr, n, fresh in _blockstate_fills(m):
+            me = f.args.args[0].arg
+            cons = f"{me}.{attr} filled in {c.name}.{f.name}"
+            if fresh:
+                r.ok(m, f"{c.name}.{f.name}", cons)
+            else:
+                r.bad(m, f"{c.name}.{f.name}", cons, f"{me}.{attr} is filled from the block being entered but not re-created there: entries of "
+                      f"an earlier update block of the same component stay visible (a closure variable MASK of block 1 shadows the "
+                      f"module global MASK in block 2, so its value and inferred width are taken from the wrong object)", n.lineno)
+    pm = Module(repo, '<c10-blockstate-probe>', BLOCKSTATE_PROBE)
+    got = {(c.name, attr): fresh for c, f, attr, n, fresh in _blockstate_fills(pm)}
+    if got != {('V', 'closure'): False, ('W', 'closure'): True}:
+        raise AnalysisError(f"R-C10-blockstate: embedded examples classified as {got}")
+    r.require_floor(2)
+    return r
+
+
+RULES = [rule_intlog, rule_litwidth, rule_idxwidth, rule_optable, rule_handlers, rule_mismatch, rule_widthtable, rule_cache, rule_ir_eq, rule_slice_step, rule_dtype, rule_blockstate,
          rule_constcache_dep, rule_sim_accepts,
          rule_sim_helpers]
 
@@ -1998,6 +2167,18 @@ MUTANTS = [
     _m('for-end-minus-one-accepted', TC2, "      if node.end._value < 0:", "      if node.end._value < -1:", 'R-C10-widthtable'),
     _m('for-start-negative-accepted', TC2, "      if node.start._value < 0:", "      if node.start._value < -1:", 'R-C10-widthtable'),
     _m('for-zero-step-accepted', TC2, "      if step == 0:\n        raise PyMTLTypeError( s.blk, node.ast,\n          'the step of for-loop cannot be zero!' )", "      if step is None:\n        raise PyMTLTypeError( s.blk, node.ast,\n          'the step of for-loop cannot be zero!' )", 'R-C10-widthtable'),
+    # sixth round
+    dict(name='generator-closure-created-once', rule='R-C10-blockstate', edits=[
+        dict(file=GEN[0], old="    s.component = component\n\n    if sys.version_info", new="    s.component = component\n    s.closure = {}\n\n    if sys.version_info", count='first'),
+        dict(file=GEN[0], old="    # Basically this is the model instance s.\n    s.closure = {}\n\n    for i, var in enumerate( blk.__code__.co_freevars ):\n      try:\n        s.closure[ var ] = blk.__closure__[ i ].cell_contents\n      except ValueError:\n        pass\n\n    s.const_extractor",
+             new="    # Basically this is the model instance s.\n\n    for i, var in enumerate( blk.__code__.co_freevars ):\n      try:\n        s.closure[ var ] = blk.__closure__[ i ].cell_contents\n      except ValueError:\n        pass\n\n    s.const_extractor", count=1)]),
+    _m('checker-closure-accumulates', TC1, "    s.closure = {}\n\n    for i, var in enumerate( blk.__code__.co_freevars ):", "    s.closure = getattr( s, 'closure', {} )\n\n    for i, var in enumerate( blk.__code__.co_freevars ):", 'R-C10-blockstate'),
+    _m('component-interface-compared-by-port-names', RT, "all(_u == _v for _u, _v in zip(u, v))", "all(_u[0] == _v[0] for _u, _v in zip(u, v))", 'R-C10-arraytype'),
+    _m('component-interface-compared-by-port-count', RT, "    return (len(u)==len(v)) and all(_u == _v for _u, _v in zip(u, v))", "    return (len(u)==len(v))", 'R-C10-arraytype'),
+    _m('port-eq-ignores-dtype', RT, "    return isinstance(other, Port) and s.dtype == other.dtype and \\\n           s.direction == other.direction", "    return isinstance(other, Port) and \\\n           s.direction == other.direction", 'R-C10-arraytype'),
+    _m('wire-next-dim-jumps-to-element', RT, "    return Wire( s.dtype.get_next_dim_type(), s.unpacked )", "    return Wire( s.dtype.get_sub_dtype(), s.unpacked )", 'R-C10-nextdim'),
+    _m('port-next-dim-keeps-array', RT, "    return Port( s.direction, s.dtype.get_next_dim_type(), s.unpacked )", "    return Port( s.direction, s.dtype, s.unpacked )", 'R-C10-nextdim'),
+    _m('packed-array-next-dim-drops-last', RDT, "    return PackedArray( s.dim_sizes[1:], s.sub_dtype )", "    return PackedArray( s.dim_sizes[:-1], s.sub_dtype )", 'R-C10-nextdim'),
     # literal width
     _m('float-log-reintroduced-L1', TC1, "      return value.bit_length()\n", "      return math.ceil(math.log2(value+1))\n", 'R-intlog'),
     _m('float-log-reintroduced-rdt', RDT, "    return value.bit_length()\n", "    return ceil(log2(value+1))\n", 'R-C10-litwidth'),
@@ -2076,6 +2257,9 @@ MUTANTS = [
 ]
 
 EQUIV = [
+    _m('closure-created-with-dict-call', GEN[0], "    s.closure = {}\n\n    for i, var in enumerate( blk.__code__.co_freevars ):", "    s.closure = dict()\n\n    for i, var in enumerate( blk.__code__.co_freevars ):"),
+    _m('component-interface-explicit-pair-compare', RT, "all(_u == _v for _u, _v in zip(u, v))", "all(_u[0] == _v[0] and _u[1] == _v[1] for _u, _v in zip(u, v))"),
+    _m('wire-next-dim-helper-variable', RT, "    return Wire( s.dtype.get_next_dim_type(), s.unpacked )", "    sub = s.dtype.get_next_dim_type()\n    return Wire( sub, s.unpacked )"),
     _m('packed-array-length-math-prod-loop', RDT, "return int(s.sub_dtype.get_length()*reduce( lambda p,x: p*x, s.dim_sizes, 1 ))", "return int(reduce( lambda p,x: p*x, s.dim_sizes, s.sub_dtype.get_length() ))"),
     _m('struct-length-as-list-sum', RDT, "    return int(sum( d.get_length() for d in s.properties.values() ))", "    return int(sum( [ s.properties[k].get_length() for k in s.properties ] ))"),
     _m('for-end-test-mirrored', TC2, "      if node.end._value < 0:", "      if 0 > node.end._value:"),
